@@ -420,3 +420,40 @@ func TestF22_PathLevelParamWithoutOperation(t *testing.T) {
 		t.Errorf("the object schema of the path-level parameter is still inline after a full flatten: %.300s", b)
 	}
 }
+
+// F24 (C01): with an empty BasePath (a document held in memory) normalizeRef rebuilt every local $ref from its last
+// token: the anonymous pointer '#/definitions/a/properties/b' was re-pointed to the unrelated definition 'b'.
+func TestF24_EmptyBasePathRetargetsPointer(t *testing.T) {
+	doc := `{"swagger":"2.0","info":{"title":"x","version":"1"},
+	  "paths":{"/a":{"get":{"responses":{"200":{"description":"ok","schema":{"$ref":"#/definitions/a/properties/b"}}}}}},
+	  "definitions":{
+	    "a":{"type":"object","properties":{"b":{"type":"object","properties":{"x":{"type":"string"}}}}},
+	    "b":{"type":"integer"}}}`
+	sw := load(t, doc)
+	if err := analysis.Flatten(analysis.FlattenOpts{Spec: analysis.New(sw), BasePath: "", Minimal: true}); err != nil {
+		t.Fatalf("flatten: %v", err)
+	}
+	if ref := sw.Paths.Paths["/a"].Get.Responses.StatusCodeResponses[200].Schema.Ref.String(); ref == "#/definitions/b" {
+		t.Errorf("the response (an object with a string property) now refers to the integer definition %q", ref)
+	}
+}
+
+// F25 (C04): a full flatten of a complex inline schema under "not" failed with "unhandled parent schema rewrite",
+// whatever holds the parent schema (a definition, a property, items).
+func TestF25_ComplexSchemaUnderNot(t *testing.T) {
+	for _, doc := range []string{
+		`{"swagger":"2.0","info":{"title":"x","version":"1"},"paths":{},
+	  "definitions":{"a":{"type":"object","not":{"type":"object","properties":{"x":{"type":"string"}}}}}}`,
+		`{"swagger":"2.0","info":{"title":"x","version":"1"},"paths":{},
+	  "definitions":{"a":{"type":"object","properties":{"p":{"not":{"type":"object","properties":{"x":{"type":"string"}}}}}}}}`,
+		`{"swagger":"2.0","info":{"title":"x","version":"1"},"paths":{},
+	  "definitions":{"a":{"type":"array","items":{"not":{"type":"object","properties":{"x":{"type":"string"}}}}}}}`,
+		`{"swagger":"2.0","info":{"title":"x","version":"1"},"paths":{},
+	  "definitions":{"a":{"type":"object","additionalProperties":{"not":{"type":"object","properties":{"x":{"type":"string"}}}}}}}`,
+	} {
+		sw := load(t, doc)
+		if err := analysis.Flatten(analysis.FlattenOpts{Spec: analysis.New(sw), BasePath: "", Minimal: false}); err != nil {
+			t.Errorf("full flatten of a well-formed single document failed: %v", err)
+		}
+	}
+}
